@@ -288,4 +288,263 @@ theorem recvLoop_nodeny (p : RPhase) (fs : List RFilter) (idx : Nat) (s : FState
         have h0 := hd _ (List.mem_cons_self ..)
         exact nodeny_core s _ p idx h0
 
+/-! ### the reply a pass leaves behind, the again-phase, the sender loop -/
+
+/-- during a pass that started in the receive phases: a won `upstreamResponseReceived` CAS implies a response object,
+and the stream is not cleaned (a termination ends the pass at once) -/
+def ActOK (s : FState) : Prop := s.cleaned = false ∧ (s.upRespReceived = true → s.resp.isSome = true)
+
+theorem applyAct_reply (s : FState) (a : Act) (h : ActOK s) :
+    ((applyAct s a).resp, (applyAct s a).statusVar) = replyOf [⟨a, .Continue⟩] (s.resp, s.statusVar) ∧
+    ActOK (applyAct s a) := by
+  obtain ⟨hc, hu⟩ := h
+  cases a with
+  | none => exact ⟨rfl, hc, hu⟩
+  | hijack k b => exact ⟨rfl, hc, fun _ => rfl⟩
+  | direct => exact ⟨rfl, hc, fun _ => rfl⟩
+  | terminate k =>
+    simp only [applyAct, replyOf, hc, Bool.or_false]
+    by_cases hr : s.resp.isSome = true
+    · simp [hr, ActOK, hc, hu]
+    · have hr' : s.resp.isSome = false := by simpa using hr
+      have hu' : s.upRespReceived = false := by
+        cases h : s.upRespReceived
+        · rfl
+        · rw [hu h] at hr'; cases hr'
+      simp [hr', hu', sendHijack, ActOK, hc]
+
+theorem replyOf_cons (v : Verdict) (l : List Verdict) (acc : Option Resp × Option Nat) :
+    replyOf (v :: l) acc = replyOf l (replyOf [⟨v.act, .Continue⟩] acc) := by
+  obtain ⟨resp, code⟩ := acc
+  simp [replyOf]
+
+theorem replyOf_append (l1 l2 : List Verdict) (acc : Option Resp × Option Nat) :
+    replyOf (l1 ++ l2) acc = replyOf l2 (replyOf l1 acc) := by
+  induction l1 generalizing acc with
+  | nil => rfl
+  | cons v r ih =>
+    obtain ⟨resp, code⟩ := acc
+    simp [replyOf, ih]
+
+theorem replyOf_noact (l : List Verdict) (acc : Option Resp × Option Nat) (h : ∀ v ∈ l, v.act = .none) :
+    replyOf l acc = acc := by
+  induction l generalizing acc with
+  | nil => rfl
+  | cons v r ih =>
+    obtain ⟨resp, code⟩ := acc
+    simp only [replyOf, h v (by simp)]
+    exact ih _ (fun x hx => h x (by simp [hx]))
+
+/-- the handler of a status that does not end the pass touches nothing; `termination` cleans -/
+theorem handler_fields (st : FStatus) (p : RPhase) (s : FState) :
+    (applyHandler (receiverHandler st) p s).resp = s.resp ∧ (applyHandler (receiverHandler st) p s).statusVar = s.statusVar ∧
+    (applyHandler (receiverHandler st) p s).upRespReceived = s.upRespReceived ∧
+    (applyHandler (receiverHandler st) p s).scalls = s.scalls ∧ (applyHandler (receiverHandler st) p s).scursor = s.scursor ∧
+    (applyHandler (receiverHandler st) p s).direct = s.direct ∧
+    (recvSwitch st = .next → applyHandler (receiverHandler st) p s = s) ∧
+    ((applyHandler (receiverHandler st) p s).cleaned = true → s.cleaned = true ∨ st = .termination) := by
+  cases st <;> simp [receiverHandler, applyHandler, cleanStream, recvSwitch] <;> split <;> simp
+
+/-- the pending response and status code after a pass are the fold of the handler calls of its invocations -/
+theorem recvLoop_reply (p : RPhase) (fs : List RFilter) (idx : Nat) (s : FState) (h : ActOK s) :
+    ((recvLoop p fs idx s).1.resp, (recvLoop p fs idx s).1.statusVar) =
+      replyOf ((recvLoop p fs idx s).2.map (·.2)) (s.resp, s.statusVar) := by
+  induction fs generalizing idx s with
+  | nil => rfl
+  | cons f rest ih =>
+    simp only [recvLoop]
+    split
+    · exact ih _ _ h
+    · generalize hv : f.verdictAt (s.rcalls idx) = v
+      have h0 : ActOK { s with rcalls := bump s.rcalls idx } := h
+      obtain ⟨e1, ok1⟩ := applyAct_reply { s with rcalls := bump s.rcalls idx } v.act h0
+      obtain ⟨f1, f2, f3, _, _, _, f7, _⟩ := handler_fields v.status p (applyAct { s with rcalls := bump s.rcalls idx } v.act)
+      have e1' : ((applyAct { s with rcalls := bump s.rcalls idx } v.act).resp,
+          (applyAct { s with rcalls := bump s.rcalls idx } v.act).statusVar) = replyOf [⟨v.act, .Continue⟩] (s.resp, s.statusVar) := e1
+      split
+      · rename_i hsw
+        simp only [List.map_cons]
+        rw [replyOf_cons, ← e1']
+        rw [f7 hsw]
+        exact ih _ _ ok1
+      · simp only [List.map_cons, List.map_nil]
+        rw [replyOf_cons, ← e1']
+        simp [replyOf, f1, f2]
+      · simp only [List.map_cons, List.map_nil]
+        rw [replyOf_cons, ← e1']
+        simp [replyOf, f1, f2]
+
+/-- the sender-side state is untouched by a receiver pass -/
+theorem recvLoop_sender (p : RPhase) (fs : List RFilter) (idx : Nat) (s : FState) :
+    (recvLoop p fs idx s).1.scalls = s.scalls ∧ (recvLoop p fs idx s).1.scursor = s.scursor := by
+  induction fs generalizing idx s with
+  | nil => exact ⟨rfl, rfl⟩
+  | cons f rest ih =>
+    simp only [recvLoop]
+    split
+    · exact ih _ _
+    · generalize hv : f.verdictAt (s.rcalls idx) = v
+      obtain ⟨_, _, _, f4, f5, _, _, _⟩ := handler_fields v.status p (applyAct { s with rcalls := bump s.rcalls idx } v.act)
+      have a1 : (applyAct { s with rcalls := bump s.rcalls idx } v.act).scalls = s.scalls ∧
+          (applyAct { s with rcalls := bump s.rcalls idx } v.act).scursor = s.scursor := by
+        cases v.act <;> simp [applyAct, sendHijack] <;> split <;> simp [sendHijack]
+      split
+      · simp only []; rw [(ih _ _).1, (ih _ _).2, f4, f5]; exact a1
+      · simp only []; rw [f4, f5]; exact a1
+      · simp only []; rw [f4, f5]; exact a1
+
+/-- a pass cleans the stream only through a `termination` status -/
+theorem recvLoop_cleaned (p : RPhase) (fs : List RFilter) (idx : Nat) (s : FState)
+    (h : (recvLoop p fs idx s).1.cleaned = true) :
+    s.cleaned = true ∨ ∃ iv ∈ (recvLoop p fs idx s).2, iv.2.status = .termination := by
+  induction fs generalizing idx s with
+  | nil => exact Or.inl h
+  | cons f rest ih =>
+    simp only [recvLoop] at h ⊢
+    split
+    · rename_i hph; rw [if_pos hph] at h; exact ih _ _ h
+    · rename_i hph
+      rw [if_neg hph] at h
+      generalize hv : f.verdictAt (s.rcalls idx) = v at h ⊢
+      obtain ⟨_, _, _, _, _, _, _, f8⟩ := handler_fields v.status p (applyAct { s with rcalls := bump s.rcalls idx } v.act)
+      have a1 : (applyAct { s with rcalls := bump s.rcalls idx } v.act).cleaned = s.cleaned := by
+        cases v.act <;> simp [applyAct, sendHijack] <;> split <;> simp [sendHijack]
+      have fin : (applyHandler (receiverHandler v.status) p (applyAct { s with rcalls := bump s.rcalls idx } v.act)).cleaned = true →
+          s.cleaned = true ∨ v.status = .termination := by
+        intro hh; rcases f8 hh with h' | h'
+        · rw [a1] at h'; exact Or.inl h'
+        · exact Or.inr h'
+      split
+      · rename_i hsw
+        simp only [hsw] at h
+        rcases ih _ _ h with h' | ⟨iv, hiv, ht⟩
+        · rcases fin h' with h'' | h''
+          · exact Or.inl h''
+          · exact Or.inr ⟨(idx, v), by simp, h''⟩
+        · exact Or.inr ⟨iv, by simp [hiv], ht⟩
+      · rename_i hsw
+        simp only [hsw] at h
+        rcases fin h with h'' | h''
+        · exact Or.inl h''
+        · exact Or.inr ⟨(idx, v), by simp, h''⟩
+      · rename_i hsw
+        simp only [hsw] at h
+        rcases fin h with h'' | h''
+        · exact Or.inl h''
+        · exact Or.inr ⟨(idx, v), by simp, h''⟩
+
+/-- a pending direct response always comes with a response object -/
+theorem recvLoop_direct_resp (p : RPhase) (fs : List RFilter) (idx : Nat) (s : FState)
+    (h : s.direct = true → s.resp.isSome = true) :
+    (recvLoop p fs idx s).1.direct = true → (recvLoop p fs idx s).1.resp.isSome = true := by
+  induction fs generalizing idx s with
+  | nil => exact h
+  | cons f rest ih =>
+    simp only [recvLoop]
+    split
+    · exact ih _ _ h
+    · generalize hv : f.verdictAt (s.rcalls idx) = v
+      obtain ⟨f1, _, _, _, _, f6, _, _⟩ := handler_fields v.status p (applyAct { s with rcalls := bump s.rcalls idx } v.act)
+      have a1 : (applyAct { s with rcalls := bump s.rcalls idx } v.act).direct = true →
+          (applyAct { s with rcalls := bump s.rcalls idx } v.act).resp.isSome = true := by
+        cases v.act <;> simp [applyAct, sendHijack] <;> (try split) <;> simp_all [sendHijack]
+      have h1 : (applyHandler (receiverHandler v.status) p (applyAct { s with rcalls := bump s.rcalls idx } v.act)).direct = true →
+          (applyHandler (receiverHandler v.status) p (applyAct { s with rcalls := bump s.rcalls idx } v.act)).resp.isSome = true := by
+        rw [f1, f6]; exact a1
+      split
+      · exact ih _ _ h1
+      · exact h1
+      · exact h1
+
+/-- the again-phase a pass can leave is MatchRoute or ChooseHost (or nothing) -/
+theorem recvLoop_again_vals (p : RPhase) (fs : List RFilter) (idx : Nat) (s : FState)
+    (h : s.again = InitPhase ∨ s.again = MatchRoute ∨ s.again = ChooseHost) :
+    (recvLoop p fs idx s).1.again = InitPhase ∨ (recvLoop p fs idx s).1.again = MatchRoute ∨
+      (recvLoop p fs idx s).1.again = ChooseHost := by
+  induction fs generalizing idx s with
+  | nil => exact h
+  | cons f rest ih =>
+    simp only [recvLoop]
+    split
+    · exact ih _ _ h
+    · generalize hv : f.verdictAt (s.rcalls idx) = v
+      have a1 : (applyAct { s with rcalls := bump s.rcalls idx } v.act).again = s.again := by
+        cases v.act <;> simp [applyAct, sendHijack] <;> split <;> simp [sendHijack]
+      have h1 : (applyHandler (receiverHandler v.status) p (applyAct { s with rcalls := bump s.rcalls idx } v.act)).again = InitPhase ∨
+          (applyHandler (receiverHandler v.status) p (applyAct { s with rcalls := bump s.rcalls idx } v.act)).again = MatchRoute ∨
+          (applyHandler (receiverHandler v.status) p (applyAct { s with rcalls := bump s.rcalls idx } v.act)).again = ChooseHost := by
+        cases v.status <;> simp only [receiverHandler, applyHandler, cleanStream] <;> (try split) <;> simp [a1, h]
+      split
+      · exact ih _ _ h1
+      · exact h1
+      · exact h1
+
+theorem sendSwitch_next_iff (st : FStatus) : sendSwitch st = .next ↔ continues st = true := by
+  cases st <;> simp [sendSwitch, continues]
+
+theorem sendSwitch_not_keep (st : FStatus) : sendSwitch st ≠ .keepReturn := by
+  cases st <;> simp [sendSwitch]
+
+/-- **each sender filter once, in order**: a sender pass over fresh filters makes exactly the invocations `sendRun` -/
+theorem sendLoop_run (fs : List SFilter) (idx : Nat) (s : FState) (h : ∀ j, idx ≤ j → s.scalls j = 0) :
+    (sendLoop fs idx s).2 = sendRun fs idx := by
+  induction fs generalizing idx s with
+  | nil => rfl
+  | cons f rest ih =>
+    simp only [sendLoop, sendRun, h idx (Nat.le_refl _)]
+    have hs : ∀ st : FStatus, ∀ j, idx + 1 ≤ j →
+        (applyHandler (senderHandler st) .BeforeRoute { s with scalls := bump s.scalls idx }).scalls j = 0 := by
+      intro st j hj
+      have : (applyHandler (senderHandler st) .BeforeRoute { s with scalls := bump s.scalls idx }).scalls = bump s.scalls idx := by
+        cases st <;> simp [senderHandler, applyHandler, cleanStream]
+      rw [this]; simp only [bump]; rw [if_neg (by omega)]; exact h j (by omega)
+    split
+    · rename_i hsw
+      rw [if_pos ((sendSwitch_next_iff _).mp hsw)]
+      simp only []
+      rw [ih _ _ (hs _)]
+    · rename_i hsw
+      have : continues (f.statusAt 0) = false := by
+        cases hc : continues (f.statusAt 0)
+        · rfl
+        · rw [(sendSwitch_next_iff _).mpr hc] at hsw; cases hsw
+      simp [this]
+    · rename_i hsw; exact absurd hsw (sendSwitch_not_keep _)
+
+/-- a sender pass leaves the reply untouched, resets its cursor, and cleans only through a `termination` status -/
+theorem sendLoop_fields (fs : List SFilter) (idx : Nat) (s : FState) :
+    (sendLoop fs idx s).1.resp = s.resp ∧ (sendLoop fs idx s).1.statusVar = s.statusVar ∧
+    (sendLoop fs idx s).1.direct = s.direct ∧ (sendLoop fs idx s).1.upRespReceived = s.upRespReceived ∧
+    (sendLoop fs idx s).1.scursor = 0 ∧
+    ((sendLoop fs idx s).1.cleaned = true → s.cleaned = true ∨ ∃ iv ∈ (sendLoop fs idx s).2, iv.2 = .termination) := by
+  induction fs generalizing idx s with
+  | nil => exact ⟨rfl, rfl, rfl, rfl, rfl, Or.inl⟩
+  | cons f rest ih =>
+    simp only [sendLoop]
+    generalize hst : f.statusAt (s.scalls idx) = st
+    have hh : (applyHandler (senderHandler st) .BeforeRoute { s with scalls := bump s.scalls idx }).resp = s.resp ∧
+        (applyHandler (senderHandler st) .BeforeRoute { s with scalls := bump s.scalls idx }).statusVar = s.statusVar ∧
+        (applyHandler (senderHandler st) .BeforeRoute { s with scalls := bump s.scalls idx }).direct = s.direct ∧
+        (applyHandler (senderHandler st) .BeforeRoute { s with scalls := bump s.scalls idx }).upRespReceived = s.upRespReceived ∧
+        ((applyHandler (senderHandler st) .BeforeRoute { s with scalls := bump s.scalls idx }).cleaned = true →
+          s.cleaned = true ∨ st = .termination) := by
+      cases st <;> simp [senderHandler, applyHandler, cleanStream]
+    obtain ⟨h1, h2, h3, h4, h5⟩ := hh
+    split
+    · obtain ⟨i1, i2, i3, i4, i5, i6⟩ := ih (idx + 1) (applyHandler (senderHandler st) .BeforeRoute { s with scalls := bump s.scalls idx })
+      refine ⟨by simp only []; rw [i1, h1], by simp only []; rw [i2, h2], by simp only []; rw [i3, h3],
+        by simp only []; rw [i4, h4], by simp only []; exact i5, ?_⟩
+      intro hc
+      rcases i6 hc with h' | ⟨iv, hiv, ht⟩
+      · rcases h5 h' with h'' | h''
+        · exact Or.inl h''
+        · exact Or.inr ⟨(idx, st), by simp, h''⟩
+      · exact Or.inr ⟨iv, by simp [hiv], ht⟩
+    · refine ⟨h1, h2, h3, h4, rfl, ?_⟩
+      intro hc
+      rcases h5 hc with h'' | h''
+      · exact Or.inl h''
+      · exact Or.inr ⟨(idx, st), by simp, h''⟩
+    · rename_i hsw; exact absurd hsw (sendSwitch_not_keep _)
+
 end MosnVerif.Model.FilterChain
